@@ -22,11 +22,12 @@ use rlverif::risinglight::Database;
 use rlverif::*;
 
 fn err_class(msg: &str) -> &'static str {
-    if msg.starts_with("Checksum") {
+    // errors raised inside the cache loader arrive wrapped (`Nested(TracedStorageError { source: .. })`)
+    if msg.contains("Checksum(") {
         "err:checksum"
-    } else if msg.starts_with("Decode") || msg.starts_with("ProstDecode") {
+    } else if msg.contains("Decode(") {
         "err:decode"
-    } else if msg.starts_with("Io") {
+    } else if msg.contains("Io(") {
         "err:io"
     } else {
         "err:other"
